@@ -37,6 +37,8 @@ def wl_field(ctx, config, scale):
     rng = ctx.rng; V = ctx.sh(config)
     for it in range(int(ctx.n(6000, 120000) * scale)):
         a = pools.field(rng, 0.5); b = pools.field(rng, 0.5)
+        if it % 7 == 0: a = steer(rng, p); a = a + p if (a + p < 2**256 and rng.random() < 0.4) else a     # operands themselves in the final-correction windows
+        if it % 11 == 0: b = steer(rng, p); b = b + p if (b + p < 2**256 and rng.random() < 0.4) else b
         op = rng.choice(("normalize", "normalize_var", "normalize_weak", "normalizes_to_zero", "normalizes_to_zero_var", "is_zero", "is_odd", "negate", "mul_int", "add_int",
                          "sqr", "sqr_inplace", "inv", "inv_var", "sqrt", "is_square_var", "half", "storage", "add", "mul", "mul_inplace", "equal", "cmp_var", "cmov", "set_b32"))
         am = a % p; bm = b % p
@@ -49,9 +51,9 @@ def wl_field(ctx, config, scale):
             if op == "add": ma = rmag(rng, 1, 31); mb = rmag(rng, 1, 32 - ma)
             elif op in ("mul", "mul_inplace"): ma = rmag(rng, 1, 8); mb = rmag(rng, 1, 8)
             elif op == "equal":
-                # field.h documents magnitudes up to 1 and 31; the VERIFY bookkeeping of the implementation (negate -> 2, add b) only
-                # admits 30 for b, so 31 is exercised on the non-VERIFY builds only (observation recorded in DESIGN.md, not a finding)
-                ma = 1; mb = rmag(rng, 1, 31 if config.endswith("_nv") else 30)
+                # field.h documents magnitudes up to 1 and 31.  Before the repair fa6a6be (finding F4) the implementation formed (-a) + b at
+                # magnitude 33: wrong answers with 32-bit limbs, an abort in VERIFY builds.  31 is now exercised on every configuration.
+                ma = 1; mb = rmag(rng, 1, 31)
                 if rng.random() < 0.4: b = a if rng.random() < 0.5 else (am + p if am + p < 2**256 else am); bm = b % p
             elif op == "cmp_var": ma = rmag(rng, 1, 32); mb = rmag(rng, 1, 32)
             else: ma = rmag(rng, 1, 32); mb = rmag(rng, 1, 32)
@@ -114,6 +116,8 @@ def wl_scalar(ctx, config, scale):
            "cond_negate", "cmov", "split_128", "split_lambda", "mul_shift_var", "get_bits_limb32", "get_bits_var", "set_u64")
     for it in range(int(ctx.n(5000, 100000) * scale)):
         op = rng.choice(ops); a = pools.scalar(rng, 0.55); b = pools.scalar(rng, 0.55); k1 = k2 = 0
+        if it % 7 == 0: a = steer(rng, n); a = a + n if (a + n < 2**256 and rng.random() < 0.4) else a
+        if it % 11 == 0: b = steer(rng, n); b = b + n if (b + n < 2**256 and rng.random() < 0.4) else b
         am = a % n; bm = b % n
         if op == "cadd_bit":
             k1 = rng.randrange(256); k2 = rng.randrange(2)
